@@ -31,8 +31,11 @@ def _worker(prop, tier, seed, taskq, resq, cvc5):
     sys.setrecursionlimit(20000)
     import jax
     jax.config.update("jax_enable_x64", True)
+    repo = os.environ.get("GTVERIF_REPO", "/repo").rstrip("/")   # /repo unless a scratch worktree is being examined
+    if repo != "/repo":
+        sys.path.insert(0, repo)
     import gaussian_toolbox
-    assert gaussian_toolbox.__file__.startswith("/repo/"), gaussian_toolbox.__file__
+    assert gaussian_toolbox.__file__.startswith(repo + "/"), gaussian_toolbox.__file__
     mod = importlib.import_module(f"gtverif.props.{prop.lower()}")
     cases = mod.cases(tier, seed)
     from gtverif.case import run_case
